@@ -506,6 +506,8 @@ Definition spec_creation (c : config) (n : nat) (fresh ok : bool) (ev : list eve
         (if ok then nat_list_eqb (proj KFirst n ev) (labels (c_first c))
          else is_prefix (proj KFirst n ev) (labels (c_first c)))
       else match proj KFirst n ev with [] => true | _ => false end)
+  (* a start in which one of these callbacks returned an error does not succeed *)
+  && (negb ok || negb (existsb cb_fail (c_startup c) || (fresh && existsb cb_fail (c_first c))))
   (* ... before the instance accepts connections: no startup / first-startup callback after
      a listener of the instance exists or one of its servers serves *)
   && ordered (fun e => is_cb KStartup n e || is_cb KFirst n e) (is_accept n) ev
